@@ -56,6 +56,13 @@ def gen_project(rng) -> Tuple[List[Unit], Dict[str, Any]]:
     else:
         definer += ["def X(a, b=1):", "    '''doc of X unique'''"]
     definer += ["class Other:", "    pass"]
+    # the optional-accelerator idiom: the defining module binds the same name a second time by an import
+    speedups = rng.random() < 0.2
+    if speedups:
+        if rng.random() < 0.5:
+            definer += ["try:", "    from _speedups import X", "except ImportError:", "    pass"]
+        else:
+            definer = ["try:", "    from _speedups import X", "except ImportError:", "    pass"] + definer
     if b_all:
         definer += ["__all__ = ['X']"]
     if imp == "rel":
@@ -103,7 +110,7 @@ def gen_project(rng) -> Tuple[List[Unit], Dict[str, Any]]:
         consumers.append({"module": "pkg." + cname, "form": form, "locals": local, "use": use, "cname": cname,
                           "alias": ("t_%s.%s" % (cname, exported)) if via_alias else None})
     meta = {"kind": kind, "import": imp, "objkind": objkind, "exported": exported, "reexporter": reexp_q,
-            "definer_all": b_all, "consumers": consumers, "imported_twice": twice}
+            "definer_all": b_all, "consumers": consumers, "imported_twice": twice, "definer_also_imports": speedups}
     return [units[0]] + sibs, meta
 
 
